@@ -1,5 +1,5 @@
 From Coq Require Import List NArith ZArith Bool.
-From SH Require Import base.Pool gen.Extracted_halflock halflock.Model registry.Model props.C01.
+From SH Require Import base.Pool gen.Extracted_halflock halflock.Model registry.Model registry.Events registry.Content props.C01.
 Import ListNotations.
 Check C01_no_use_after_free :
   forall (q_ok s_ok : Z -> bool) os0 ls s fs es,
@@ -9,5 +9,26 @@ Check C01_no_use_after_free :
 Check C01_no_double_free :
   forall (q_ok s_ok : Z -> bool) os0 ls s fs es,
   run q_ok s_ok (sh_init os0, []) ls = ((s, fs), es) -> NoDup (freed (dt s)) /\ NoDup (freed (fb s)).
+Check C01_released_by_mutators_only :
+  forall (q_ok s_ok : Z -> bool) os0 ls s fs es,
+  run q_ok s_ok (sh_init os0, []) ls = ((s, fs), es) ->
+  forall k f sg s' f' es', nth_error fs k = Some f -> kind f = KDeliver sg ->
+    fstep q_ok s_ok s f = (s', f', es') ->
+    forallb handler_op es' = true /\ forallb (fun e => negb (forbidden_in_handler e)) es' = true.
+Check C01_unregister_quiescent :
+  forall (q_ok s_ok : Z -> bool) os0 ls s fs es,
+  run q_ok s_ok (sh_init os0, []) ls = ((s, fs), es) ->
+  forall k g sg id, nth_error fs k = Some g -> kind g = KMut (MUnregister sg id) -> fpc g = PDone -> res g = 1%Z ->
+    (forall j h, nth_error fs j = Some h -> sig_of (kind h) = sg -> ~ In id (map fst (pending h))) /\
+    ~ In id (map fst (slot_acts (cur s) sg)).
+Check C01_unregister_signal_quiescent :
+  forall (q_ok s_ok : Z -> bool) os0 ls s fs es,
+  run q_ok s_ok (sh_init os0, []) ls = ((s, fs), es) ->
+  forall k g sg id, nth_error fs k = Some g -> kind g = KMut (MUnregSignal sg) -> fpc g = PDone -> In id (removed g) ->
+    (forall j h, nth_error fs j = Some h -> sig_of (kind h) = sg -> ~ In id (map fst (pending h))) /\
+    ~ In id (map fst (slot_acts (cur s) sg)).
 Print Assumptions C01_no_use_after_free.
 Print Assumptions C01_no_double_free.
+Print Assumptions C01_released_by_mutators_only.
+Print Assumptions C01_unregister_quiescent.
+Print Assumptions C01_unregister_signal_quiescent.
